@@ -12,6 +12,8 @@
 #                                  a pending receive with NNG_ECANCELED
 #       C04_MSGQ_NB_FIXED          msgqueue.c nni_msgq_aio_get/put do not begin with nni_aio_start
 #       C04_MSGQ_RESIZE_FIXED      msgqueue.c nni_msgq_resize re-runs both waiter queues and run_notify
+#       C04_REP_WBUSY_FIXED        rep.c raises or clears writable according to the busy state of the socket's reply pipe
+#       C04_MSGQ_GET_RUNS_PUTQ     msgqueue.c nni_msgq_aio_get runs the writer side after the reader side
 _D = "src/sp/protocol/reqrep0/"
 _rq, _rp, _xq, _xp = (src(_D + f) for f in ("req.c", "rep.c", "xreq.c", "xrep.c"))
 
@@ -129,3 +131,15 @@ extra_text.append("Definition C04_REP_NBSEND_FIXED : bool := %s.  (* rep.c rep0_
                   % ("true" if re.search(r"if\s*\(!nni_aio_start\(aio,\s*rep0_ctx_cancel_send,\s*ctx\)\)\s*\{[^}]*ctx->btrace_len\s*=", _rcs) else "false"))
 extra_text.append("Definition C04_REP_SAIO_FIXED : bool := %s.  (* rep.c rep0_ctx_send refuses (NNG_ESTATE) while ctx->saio is pending, before the reply slot is consumed *)"
                   % ("true" if re.search(r"nni_mtx_lock\(&s->lk\);\s*if\s*\(ctx->saio\s*!=\s*NULL\)\s*\{[^}]*NNG_ESTATE[^}]*\}\s*len\s*=\s*ctx->btrace_len", _rcs) else "false"))
+_rcr = _body(_rp, "rep0_ctx_recv", _D + "rep.c")
+_rprc = _body(_rp, "rep0_pipe_recv_cb", _D + "rep.c")
+_wb = lambda b: re.search(r"if\s*\(ctx\s*==\s*&s->ctx\)\s*\{\s*if\s*\(!p->busy\)\s*\{\s*nni_pollable_raise\(&s->writable\);\s*\}\s*else\s*\{\s*nni_pollable_clear\(&s->writable\);", b) is not None
+_wb_pin = lambda b: re.search(r"if\s*\(\(ctx\s*==\s*&s->ctx\)\s*&&\s*!p->busy\)\s*\{\s*nni_pollable_raise\(&s->writable\);", b) is not None
+_wb_send = re.search(r"p->busy\s*=\s*true;\s*if\s*\(p->id\s*==\s*s->ctx\.pipe_id\)\s*\{(?:\s*//[^\n]*\n)*\s*nni_pollable_clear\(&s->writable\);", _rcs) is not None
+_wb_all = _wb(_rcr) and _wb(_rprc) and _wb_send
+if not _wb_all and not (_wb_pin(_rcr) and _wb_pin(_rprc) and not _wb_send):
+    missing.append("rep.c writable pollable on receive / send (neither the pinned form nor the repaired raise-or-clear form in rep0_ctx_recv, rep0_pipe_recv_cb and rep0_ctx_send)")
+extra_text.append("Definition C04_REP_WBUSY_FIXED : bool := %s.  (* rep.c: writable raised or cleared according to the busy state of the socket's reply pipe *)"
+                  % ("true" if _wb_all else "false"))
+extra_text.append("Definition C04_MSGQ_GET_RUNS_PUTQ : bool := %s.  (* msgqueue.c nni_msgq_aio_get runs nni_msgq_run_putq after nni_msgq_run_getq *)"
+                  % ("true" if re.search(r"nni_msgq_run_getq\(mq\);\s*(?://[^\n]*\n\s*)*nni_msgq_run_putq\(mq\);", _gb) else "false"))
